@@ -3,6 +3,10 @@ import PvlModel.Lemmas.OdlZone
 import PvlModel.Lemmas.PdsTime
 import PvlModel.Lemmas.Doy
 import PvlModel.Lemmas.Frac
+import PvlModel.Lemmas.DoyDT
+import PvlModel.Lemmas.Leap
+import PvlModel.Lemmas.Zspell
+import PvlModel.Lemmas.DoyFrac
 import PvlModel.Gen.Tables
 /-!
 # C14 — date and time values keep their type, instant and time-zone meaning
@@ -47,7 +51,11 @@ whole milliseconds.
 (`monthDayOf_spec`).  **Fractions of any length** (`C14_time_fraction_decodes`): one to six digits, scaled to
 microseconds.
 
-Day-of-year date-times, leap seconds and the refusal branches are decided by the generator's independent reading of
+**Day-of-year date-times** (`C14_doy_datetime_decodes`; `Lemmas/DoyDT.lean`) and **leap seconds**
+(`C14_leap_second_time`: `HH:MM:60` is a string where the dialect admits it, refused elsewhere;
+`Lemmas/Leap.lean`).
+
+Leap seconds with a date or a fraction, `+HHMM` and the other refusal branches are decided by the generator's independent reading of
 each spelling against the real decoders and the model (`vlib/props/c14.py`); their theorems are open.
 -/
 namespace Pvl
@@ -377,6 +385,132 @@ theorem C14_time_fraction_decodes (dc : Dec) (hg : TimeTablesOK6 dc.g = true) (h
 
 example : fracMicros [53] = 500000 ∧ fracMicros [49, 50, 51] = 123000 ∧ fracMicros [48, 48, 48, 48, 48, 49] = 1 := by
   decide
+
+
+
+theorem doyDtTables_ok : ∀ g ∈ [Gen.pvl, Gen.odl, Gen.pds, Gen.isis, Gen.omni], DoyDtTablesOK g = true := by
+  decide
+
+/-- **C14, day-of-year date-times**: `YYYY-DDDTHH:MM[:SS[.ffffff]]`, with or without `Z` — the usual PDS3
+    spelling — is decoded by each decoder class to the calendar date whose ordinal day is `DDD` and the written
+    clock fields.  All four date formats, six time formats and the six *calendar* date-time formats are proved
+    to fail on it first (the calendar ones at the month: no `-` follows however `%m` splits the digits). -/
+theorem C14_doy_datetime_decodes (dc : Dec) (hg : DoyDtTablesOK dc.g = true) (y j h mi s us : Nat)
+    (hd : ValidDoy y j) (hv : ValidTime h mi s us) (hp : dc.kind = .pds → us % 1000 = 0) :
+    ∃ m d, 1 ≤ m ∧ m ≤ 12 ∧ 1 ≤ d ∧ d ≤ daysInMonth y m ∧ daysBeforeMonth y m + d = j ∧
+      decodeDatetime dc (doyT y j (encodeTimeBase h mi s us)) = .ok (.datetime y m d h mi s us (defaultTz dc.g)) ∧
+      decodeDatetime dc (doyT y j (encodeTimeBase h mi s us ++ [90])) = .ok (.datetime y m d h mi s us (some 0)) := by
+  have b1 := decodeDatetimeBase_doy_datetime dc.g hg y j h mi s us hd hv
+  have b2 := decodeDatetimeBase_doy_datetimeZ dc.g hg y j h mi s us hd hv
+  obtain ⟨a, b, c, d, e⟩ := monthDayOf_spec y j hd.2.2.1 hd.2.2.2
+  refine ⟨(monthDayOf y j).1, (monthDayOf y j).2, a, b, c, d, e, ?_, ?_⟩
+  all_goals
+    unfold decodeDatetime
+    cases hk : dc.kind
+    · simp [b1, b2]
+    · simp [b1, b2, decodeDatetimeOdl]
+    · have := hp hk
+      simp [b1, b2, this]
+    · simp [b1, b2, decodeDatetimeOdl]
+
+
+
+theorem timeTablesAll_ok : ∀ g ∈ [Gen.pvl, Gen.odl, Gen.pds, Gen.isis, Gen.omni], TimeTablesAll g = true := by
+  decide
+
+theorem zoneSplitGo_noSign (t : Str) (ht : NoSign t) : ∀ pre, zoneSplitGo pre t = none := by
+  induction t with
+  | nil => intro pre; simp [zoneSplitGo]
+  | cons c r ih =>
+    intro pre
+    have hc := ht c (by simp)
+    have h1 : (c == 43 || c == 45) = false := by simp [hc.1, hc.2.1]
+    have h2 : (c == 10) = false := by simp [hc.2.2]
+    simp only [zoneSplitGo, h1, Bool.and_false, Bool.false_eq_true, if_false, h2]
+    exact ih (fun x hx => ht x (by simp [hx])) _
+
+theorem leapText_noSign (h mi : Nat) : NoSign (leapText h mi) := by
+  unfold leapText
+  have p := fun n w => noSign_digits (pad n w) (allDigits_pad n w)
+  refine noSign_append _ _ (p h 2) (noSign_cons 58 _ (by decide) (noSign_append _ _ (p mi 2) ?_))
+  exact noSign_cons 58 _ (by decide) (noSign_cons 54 _ (by decide) (noSign_cons 48 _ (by decide) noSign_nil))
+
+/-- **C14, leap seconds**: `HH:MM:60` is not a `datetime.time` (Python has no 61st second).  The decoders of
+    the dialects that admit it (PVL, ISIS, the default one: their grammar carries the leap-second patterns)
+    return the text itself, as a string; the ODL and PDS3 decoders refuse it.  In both cases `%H:%M:%S` is shown
+    to *match* the text and `strptime` to reject the value 60, and every other format to fail. -/
+theorem C14_leap_second_time (dc : Dec) (hg : TimeTablesAll dc.g = true) (h mi : Nat) (hh : h < 24) (hm : mi < 60) :
+    (dc.g.leapYmdPattern = some patLeapYmd → (dc.kind = .pvl ∨ dc.kind = .omni) →
+      decodeDatetime dc (leapText h mi) = .ok (.str (leapText h mi))) ∧
+    (dc.g.leapYmdPattern = none → dc.g.leapYjPattern = none →
+      decodeDatetime dc (leapText h mi) = .error .value) := by
+  have hb := decodeDatetimeBase_leap dc.g hg h mi hh hm
+  have hl := leapTimePart_leapText h mi hh hm
+  constructor
+  · intro hp hk
+    have : isLeapSeconds dc.g (leapText h mi) = true := by
+      simp [isLeapSeconds, hp, leapYmd, hl]
+    rw [this] at hb
+    simp only [if_true] at hb
+    unfold decodeDatetime
+    rcases hk with hk | hk <;> simp [hk, hb, decodeDatetimeOdl]
+  · intro h1 h2
+    have : isLeapSeconds dc.g (leapText h mi) = false := by simp [isLeapSeconds, h1, h2]
+    rw [this] at hb
+    simp only [Bool.false_eq_true, if_false] at hb
+    have hz : zoneSplit (leapText h mi) = none := zoneSplitGo_noSign _ (leapText_noSign h mi) []
+    unfold decodeDatetime
+    cases hk : dc.kind <;> simp [hb, decodeDatetimeOdl, hz]
+
+example : Gen.pvl.leapYmdPattern = some patLeapYmd ∧ Gen.isis.leapYmdPattern = some patLeapYmd ∧
+    Gen.omni.leapYmdPattern = some patLeapYmd ∧ Gen.odl.leapYmdPattern = none ∧ Gen.pds.leapYjPattern = none := by
+  refine ⟨rfl, rfl, rfl, rfl, rfl⟩
+
+
+
+/-- **C14, every spelling of a zone offset**: the ODL decoder reads `±H`, `±HH`, `±H:MM`, `±HH:MM`, `±HMM` and
+    `±HHMM` after a time as the offset of `H` hours and `MM` minutes (hours up to 12) — the alternatives of the
+    pattern's `0?[0-9]|1[0-2]` and of its optional `:` are followed in the regular expression's order -/
+theorem C14_time_offset_spellings (dc : Dec) (hk : dc.kind = .odl) (hg : OdlTablesOK dc.g = true)
+    (h mi s us : Nat) (hv : ValidTime h mi s us) (neg : Bool) (hh mm : Nat) (hh12 : hh ≤ 12) (hmm : mm < 60)
+    (z : Str) (hz : ZoneSpelling hh mm z) :
+    decodeDatetime dc (encodeTimeBase h mi s us ++ (if neg then 45 else 43) :: z) =
+      .ok (.time h mi s us (some (((hh : Int) * 3600 + (mm : Int) * 60) * (if neg then -1 else 1)))) := by
+  unfold decodeDatetime
+  simp only [hk]
+  exact decodeDatetimeOdl_zoned_any dc.g hg h mi s us hv neg z hh mm (zoneTail_spelling hh mm hh12 hmm z hz)
+
+/-- `+5`, `+0530`, `-3:30` are spellings -/
+example : ZoneSpelling 5 0 [53] ∧ ZoneSpelling 5 30 [48, 53, 51, 48] ∧ ZoneSpelling 3 30 [51, 58, 51, 48] :=
+  ⟨ZoneSpelling.h1 (by decide) rfl, ZoneSpelling.h2m, ZoneSpelling.h1c (by decide)⟩
+
+
+
+/-- **C14, the usual PDS3 time stamp**: `YYYY-DDDTHH:MM:SS.fff` — day of year, and one to six fraction digits,
+    with or without `Z` — is decoded by each decoder class to the calendar date whose ordinal day is `DDD`, the
+    written clock fields and the fraction scaled to microseconds (`2003-181T14:23:11.123` is 30 June 2003,
+    14:23:11 and 123000 µs).  The PDS3 decoder accepts it when the value is a whole number of milliseconds. -/
+theorem C14_doy_datetime_fraction_decodes (dc : Dec) (hg : DoyDtTablesOK dc.g = true) (y j h mi s : Nat)
+    (hd : ValidDoy y j) (hh : h < 24) (hm : mi < 60) (hs : s < 60) (ds : Str) (hds : AllDigits ds)
+    (h1 : 1 ≤ ds.length) (h6 : ds.length ≤ 6) (hp : dc.kind = .pds → fracMicros ds % 1000 = 0) :
+    ∃ m d, 1 ≤ m ∧ m ≤ 12 ∧ 1 ≤ d ∧ d ≤ daysInMonth y m ∧ daysBeforeMonth y m + d = j ∧
+      decodeDatetime dc (doyT y j (pad h 2 ++ 58 :: (pad mi 2 ++ 58 :: (pad s 2 ++ 46 :: ds)))) =
+        .ok (.datetime y m d h mi s (fracMicros ds) (defaultTz dc.g)) ∧
+      decodeDatetime dc (doyT y j (pad h 2 ++ 58 :: (pad mi 2 ++ 58 :: (pad s 2 ++ 46 :: (ds ++ [90]))))) =
+        .ok (.datetime y m d h mi s (fracMicros ds) (some 0)) := by
+  obtain ⟨b1, b2⟩ := decodeDatetimeBase_doy_frac dc.g hg y j h mi s hd hh hm hs ds hds h1 h6
+  obtain ⟨a, b, c, d, e⟩ := monthDayOf_spec y j hd.2.2.1 hd.2.2.2
+  refine ⟨(monthDayOf y j).1, (monthDayOf y j).2, a, b, c, d, e, ?_, ?_⟩
+  all_goals
+    unfold decodeDatetime
+    cases hk : dc.kind
+    · simp [b1, b2]
+    · simp [b1, b2, decodeDatetimeOdl]
+    · have := hp hk
+      simp [b1, b2, this]
+    · simp [b1, b2, decodeDatetimeOdl]
+
+example : monthDayOf 2003 181 = (6, 30) ∧ fracMicros [49, 50, 51] = 123000 := by decide
 
 
 /-- **the order and the zone pattern the model follows are the ones in the source**: `decode_datetime` tries the
